@@ -113,6 +113,7 @@ type debModel struct {
 	DataExt      string
 	Extras       []model.ArMember // members after data.tar
 	Binary       string           // content of debian-binary
+	Timestamp    int64            // mtime of the three standard members (0 = a fixed 2023 date)
 }
 
 func genDataFiles(r *core.Rand, maxSize int) []tarEnt {
@@ -176,10 +177,14 @@ func (m debModel) members() ([]model.ArMember, error) {
 	if err != nil {
 		return nil, err
 	}
+	ts := m.Timestamp
+	if ts == 0 {
+		ts = 1700000000
+	}
 	ms := []model.ArMember{
-		{Name: "debian-binary", Timestamp: 1700000000, Mode: "100644", Data: []byte(m.Binary)},
-		{Name: tarName("control", m.ControlExt), Timestamp: 1700000000, Mode: "100644", Data: ct},
-		{Name: tarName("data", m.DataExt), Timestamp: 1700000000, Mode: "100644", Data: dt},
+		{Name: "debian-binary", Timestamp: ts, Mode: "100644", Data: []byte(m.Binary)},
+		{Name: tarName("control", m.ControlExt), Timestamp: ts, Mode: "100644", Data: ct},
+		{Name: tarName("data", m.DataExt), Timestamp: ts, Mode: "100644", Data: dt},
 	}
 	return append(ms, m.Extras...), nil
 }
